@@ -268,6 +268,21 @@ def stressCases : G (List String) := do
   for k in [0, 1, 2] do
     let p ← genPic { flavour := 3 } 1 (32, 32) k true
     out := s!"P 0 d:{hexOf p};n" :: out
+  -- a predicted picture that declares another size than its reference: same width and a smaller height that is not a multiple
+  -- of 16 or of 8, a taller one, a narrower and a wider one (the code must reject the prediction, never index by the other size)
+  for fl in [0, 1] do
+    for (pw, ph) in [(32, 12), (32, 20), (32, 28), (32, 8), (32, 17), (32, 31), (32, 36), (32, 48), (20, 32), (40, 32), (31, 32), (16, 16)] do
+      let i ← genPic { flavour := fl } 0 (32, 32) 5 true
+      let p ← genPic { flavour := fl } 1 (pw, ph) 6 true
+      let p2 ← genPic { flavour := fl } 2 (pw, ph) 7 true
+      out := s!"P 1 d:{hexOf i};r:{hexOf p};r:{hexOf p2}" :: out
+  for (pw, ph) in [(32, 12), (32, 20), (36, 32), (32, 36)] do
+    let i ← genPic { flavour := 3 } 0 (32, 32) 5 true
+    let p ← genPic { flavour := 3 } 1 (pw, ph) 6 true
+    let hdr := match p.hdr with
+      | .plus hh => HdrD.plus { hh with ufep := true }
+      | x => x
+    out := s!"P 0 d:{hexOf i};r:{hexOf { p with hdr := hdr }}" :: out
   pure out.reverse
 
 /-- options announced by a rejected picture must not reach the next one: a baseline I picture, then (fresh reader) a PLUSPTYPE
